@@ -41,6 +41,10 @@ func (g *docGen) literal(kind string) interface{} {
 		return float64(g.seq%50) + 0.5
 	case "xsd:dateTime":
 		// RFC 3339 with whole seconds, UTC or a numeric offset (what the encoder writes back verbatim)
+		if g.seq%37 == 0 {
+			// the ends of the range and the instants a time library treats specially
+			return []string{"0001-01-01T00:00:00Z", "0001-01-01T05:30:00+05:30", "9999-12-31T23:59:59Z", "1970-01-01T00:00:00Z", "0001-01-01T00:00:01Z", "1969-12-31T23:59:59Z"}[(g.seq/37)%6]
+		}
 		zone := []string{"Z", "Z", "+02:00", "-07:30"}[g.seq%4]
 		return fmt.Sprintf("%04d-%02d-%02dT%02d:%02d:%02d%s", 1990+g.seq%60, 1+g.seq%12, 1+g.seq%28, g.seq%24, (g.seq/3)%60, g.seq%60, zone)
 	case "xsd:duration":
